@@ -18,6 +18,10 @@ type Case struct {
 	Cuts           []int          `json:"cuts,omitempty"`
 	ByteAtATime    bool           `json:"byte_at_a_time,omitempty"`
 	Violation      string         `json:"violation,omitempty"`
+	// Handlers: which receive handlers the application installed: "" = OnMessage, "both" = OnMessage and
+	// OnDataFrame, "dataframe" = OnDataFrame only (frames are handed through one by one: the frame-level rules
+	// are asserted, the message-level ones - UTF-8 of the assembled text, inflating, limits - are not)
+	Handlers string `json:"handlers,omitempty"`
 }
 
 // ---------- generators ----------
@@ -53,6 +57,7 @@ func genCloseCode(t *rapid.T) int {
 // Gen draws a frame sequence with zero or one injected violation.
 func Gen(t *rapid.T) Case {
 	c := Case{ReceiverClient: rapid.Bool().Draw(t, "receiver_client"), Compression: rapid.Bool().Draw(t, "compression"), CloseHandler: rapid.Bool().Draw(t, "closehandler")}
+	c.Handlers = rapid.SampledFrom([]string{"", "", "", "both", "dataframe"}).Draw(t, "handlers")
 	masked := !c.ReceiverClient
 	if rapid.IntRange(0, 7).Draw(t, "flipmask") == 0 {
 		masked = !masked
